@@ -18,8 +18,10 @@ import (
 	"os"
 	"os/exec"
 	"regexp"
+	"sort"
 	"strings"
 	"sync"
+	"sync/atomic"
 	"time"
 
 	"github.com/weedbox/pokertable"
@@ -132,14 +134,18 @@ func callByIndex(m pokertable.Manager, k int, id string) (string, error) {
 	}
 }
 
+var mgrSeq atomic.Int64 // orders the calls made through the managers of a run
+
 // mgrProxy is the engine as the harness sees it in mgr mode: everything the manager forwards goes through the manager
 type mgrProxy struct {
 	pokertable.TableEngine // the real engine: callbacks, GetTable, GetGame, CreateTable
 	c                      *mgrCtx
 	id                     string
-	// calls of this table that are in flight, and the lines of calls that finished while an earlier one still was: the
+	// calls of this table that are in flight, and the lines of calls that finished while another one still was: the
 	// registry model judges a call by whether the table was registered when the call *began* (the manager's lookup comes
-	// first), so a call made from inside another call's notification (a release from a listener, say) is written after it
+	// first), so a call made from inside another call's notification (a release from a listener, say) is written after it;
+	// a successful close / release takes effect on the registry when it *ends* (the entry is deleted last), so a call that
+	// began while it ran — from another goroutine — is written before it
 	pmu      sync.Mutex
 	depth    int
 	deferred []string
@@ -169,7 +175,11 @@ func (p *mgrProxy) fwd(name string, via func() error, direct func() error) error
 	p.pmu.Lock()
 	p.depth++
 	p.pmu.Unlock()
+	key := mgrSeq.Add(1) // an ordinary call is judged by the registry as it was when the call began (the lookup comes first) …
 	err := via()
+	if (name == "CloseTable" || name == "ReleaseTable") && err == nil {
+		key = mgrSeq.Add(1) // … a close / release forgets the table at its very end: calls that began meanwhile are still served
+	}
 	post := c.twinJSON()
 	same := 1
 	if pre != post {
@@ -178,11 +188,14 @@ func (p *mgrProxy) fwd(name string, via func() error, direct func() error) error
 	line := fmt.Sprintf("mg call t=%s name=%s | res=%s twin=%d", p.id, name, resClass(err), same)
 	p.pmu.Lock()
 	p.depth--
+	p.deferred = append(p.deferred, fmt.Sprintf("%020d %s", key, line))
 	var out []string
-	if p.depth > 0 {
-		p.deferred = append(p.deferred, line)
-	} else {
-		out = append([]string{line}, p.deferred...)
+	if p.depth == 0 {
+		// every call of this table that overlapped has finished: write them in the order the registry saw them
+		sort.Strings(p.deferred)
+		for _, l := range p.deferred {
+			out = append(out, l[21:])
+		}
 		p.deferred = nil
 	}
 	p.pmu.Unlock()
